@@ -272,6 +272,7 @@ def main(argv):
     a = ap.parse_args(argv)
     seed = int(os.environ.get("VERIF_SEED", "1") or "1")
     sys.path.insert(0, os.path.join(ROOT, "checks"))
+    sys.path.insert(0, os.path.join(ROOT, "tools"))
     ctx = Ctx(a.pid, a.tier if a.tier in ("quick", "thorough") else "quick", seed, a.replay)
     try:
         mod = importlib.import_module(a.pid.lower())
